@@ -70,7 +70,7 @@ var escapeTable = map[string]string{
 	"(json.Number).not":                         "argument is the result of cmpAbs/cmpInt/cmpFra, which return only -1, 0, 1 (rule C13.pred decodes those tables)",
 	"(json.Number).ToFloat":                     "strconv.ParseFloat of String() of a Number that passed the number grammar; not reachable from schema processing",
 	"json.NewJsonType":                          "exported helper that panics by contract on an unknown name; callers inside the module run under the loader's recover",
-	"(json.GuessData).LiteralJsonType":          "reached from the enum scanner only through handleLiteralEnd → GuessSchemaType? no: reached via json.Guess on lexemes the scanner already classified as literals; panics with a positioned error value (error type), converted by callers",
+	"(json.GuessData).LiteralJsonType":          "on the schema path the panic is an error value converted by the recovering callers; on the enum-rule path (no recover) it is unreachable because the enum scanner hands only well-formed JSON scalars to json.Guess - that invariant is not trusted, it is the product check C02.inv.enumlit (= C17.grammar) run as part of this property",
 	"(*kit.JSchemaError).preparation":           "file is set by NewJSchemaError, the only constructor; a zero JSchemaError is never returned by the module",
 	"(*notations/jschema.JSchema).BuildASTNode": "exported for internal use by load(), which runs under the recover of LoadOnce; panics with the error value returned by ASTNode()",
 	"notations/jschema/ischema.collectASTRules": "err is the result of Constraints.Each whose callback always returns nil",
